@@ -248,6 +248,7 @@ func c16Oracle(c c16Case) error {
 	if stripped := reANSI.ReplaceAll(colored, nil); !bytes.Equal(stripped, plain) {
 		return fmt.Errorf("coloured output with the escape sequences removed is not the uncoloured output: %s", firstDiffBytes(plain, stripped))
 	}
+	reHdr, _ := regexp.Compile(c.Regexp)
 	for _, colour := range []string{"-no-color", "-force-color"} {
 		if c.Regexp == "" {
 			break
@@ -278,9 +279,17 @@ func c16Oracle(c c16Case) error {
 				fi = fi[len(t):]
 				fOnly++
 			case inF:
+				// the direction: -f drops the blocks whose header matches, -m keeps only those
+				// (decidable on the uncoloured header, which is what pp matches with -no-color)
+				if colour == "-no-color" && reHdr != nil && reHdr.MatchString(b.header+"\n") {
+					return fmt.Errorf("block %d (%q): its header matches %q, yet -f shows it and -m does not", bi, b.header, c.Regexp)
+				}
 				fi = fi[len(t):]
 				fOnly++
 			case inM:
+				if colour == "-no-color" && reHdr != nil && !reHdr.MatchString(b.header+"\n") {
+					return fmt.Errorf("block %d (%q): its header does not match %q, yet -m shows it and -f does not", bi, b.header, c.Regexp)
+				}
 				mi = mi[len(t):]
 				mOnly++
 			default:
